@@ -1,6 +1,6 @@
 (* Under `no_ns_shadow` (Resolve/NsShadow.v) the specification with the namespace table consulted first
    for the root of `x.f` and the documented specification (scope first) are the same function:
-       no_ns_shadow ast = true -> resolve_spec_nsfirst ast = resolve_spec ast.
+       no_ns_shadow fx ast = true -> resolve_spec_nsfirst fx ast = resolve_spec fx ast.
    Invariant: every name in the environment is one of the program's binder names, and the namespace
    tables are those left by the two namespace passes. *)
 From Coq Require Import String List NArith ZArith Bool Lia Arith.
@@ -335,13 +335,13 @@ Proof.
   cbn in Hm. apply andb_true_iff in Hm as [Hs Hl]. cbn. rewrite Hs. cbn. apply IHl. exact Hl.
 Qed.
 
-Theorem nsfirst_is_lexical ast : no_ns_shadow ast = true -> resolve_spec_nsfirst ast = resolve_spec ast.
+Theorem nsfirst_is_lexical fx ast : no_ns_shadow fx ast = true -> resolve_spec_nsfirst fx ast = resolve_spec fx ast.
 Proof.
   unfold no_ns_shadow, passes_state, resolve_spec_nsfirst, resolve_spec, resolve_spec_g, resolve_spec_fuel, resolve_spec_m.
   intros H. unfold bind at 1 in H. unfold bind at 1 5.
   destruct (for_each insert_namespace_and_add_definitions ast (init_state ast)) as [[[] s1]| | |]; try reflexivity.
   unfold bind at 1 4.
-  destruct (for_each (fun m => resolve_global_variables (m_file m) (m_stmts m)) ast s1) as [[[] s2]| | |];
+  destruct (import_pass fx ast s1) as [[[] s2]| | |];
     try reflexivity.
   pose proof (chk_flat _ _ _ H) as Hc.
   destruct (g_all (binder_names ast) s2 (fuel_of ast)) as (_ & _ & IHs).
@@ -357,8 +357,9 @@ From Sylt Require Import Resolve.RefineProofs.
 
 Theorem resolve_refines_modulo_ns fl :
   restores fl = true ->
-  forall ast, wf_ast ast = true -> no_ns_shadow ast = true -> resolve fl ast = resolve_spec ast.
+  forall ast, wf_ast ast = true -> no_ns_shadow (imports_fixpoint fl) ast = true ->
+  resolve fl ast = resolve_spec (imports_fixpoint fl) ast.
 Proof.
   intros Hr ast Hw Hn. rewrite (resolve_refines_restores fl Hr ast Hw).
-  destruct (access_local_first fl); [reflexivity|]. exact (nsfirst_is_lexical ast Hn).
+  destruct (access_local_first fl); [reflexivity|]. exact (nsfirst_is_lexical _ ast Hn).
 Qed.
